@@ -282,6 +282,14 @@ func (entry *localFileEntry) Create(targetState FileState, size int64) error {
 		return os.ErrExist
 	}
 
+	// Without a data file, anything left in the entry's directory belongs to
+	// an earlier incarnation which was moved or deleted while the process
+	// died. It must be gone before the data file appears, or a reload would
+	// adopt it (e.g. piece statuses of the old file).
+	if err := removeStaleMetadata(filepath.Dir(targetPath)); err != nil {
+		return err
+	}
+
 	// Create dir.
 	if err := os.MkdirAll(filepath.Dir(targetPath), DefaultDirPermission); err != nil {
 		return err
@@ -653,4 +661,27 @@ func writeFileAtomic(filePath string, b []byte, perm os.FileMode) error {
 		os.Remove(tmp.Name())
 	}
 	return err
+}
+
+// removeStaleMetadata removes everything in an entry directory which has no
+// data file, except the last access time which the file map has just written
+// for the new entry.
+func removeStaleMetadata(dir string) error {
+	infos, err := os.ReadDir(dir)
+	if err != nil {
+		if os.IsNotExist(err) {
+			return nil
+		}
+		return err
+	}
+	lat := (&metadata.LastAccessTime{}).GetSuffix()
+	for _, info := range infos {
+		if info.Name() == lat {
+			continue
+		}
+		if err := os.RemoveAll(filepath.Join(dir, info.Name())); err != nil {
+			return err
+		}
+	}
+	return nil
 }
